@@ -91,6 +91,15 @@ def run(tier, seed, open_findings):
         docs = []
         for i in range(n):
             d = docgen.gen(rng, rng.randrange(1, 4)); docs.append(docgen.faulty(rng, d, i % 3))
+        # every ordered pair of faults on one fixed document: two faults meeting in one element (a content-model error and a value error of a child)
+        # is what separates 'strict raises the first error that lax collects' from 'strict raises some error'
+        base = docgen.gen(random.Random(7), 2)
+        pairs = [(a, b) for a in docgen.FAULTS for b in docgen.FAULTS if a != b]
+        for (a1, b1), (a2, b2) in pairs:
+            d = base
+            if a1 in d: d = d.replace(a1, b1, 1)
+            if a2 in d: d = d.replace(a2, b2, 1)
+            docs.append(d)
         jobs = [(ver, d, workdir) for d in docs for ver in ('1.0', '1.1')]
         res = pmap(eval_doc, jobs)
         fails = [dict(case=dict(doc=r['doc'], ver=r['ver']), observed=dict(source=r['source'], problem=r['problem'], errors=r.get('lax')), required='all entry points, modes and source kinds agree') for r in res if r]
